@@ -45,6 +45,14 @@ pub fn program(cls: &str, errfile: u64) -> (String, String) {
         }
     };
     match cls {
+        "err_fileattr" => {
+            // the defective file holds a file attribute and nothing else; the other file stands on its own
+            if errfile == 1 {
+                ("[[bogus]]\n".to_owned(), "module B\nstruct SB { y: int32 }\n".to_owned())
+            } else {
+                (good_a, "[[bogus]]\n".to_owned())
+            }
+        }
         "warn" => {
             let w = |m: &str, s: &str| format!("module {m}\n[deprecated] struct Old{m} {{}}\nstruct {s} {{ x: int32, o: Old{m} }}\n");
             if errfile == 1 {
